@@ -203,10 +203,47 @@ func hashFields(fs modbus.Fields, ti int) uint64 {
 	return h
 }
 
+// build hands the fields to a builder in one of several ways a caller may use (all give the builder the same logical list).
+func build(fields modbus.Fields, usage int) *modbus.Builder {
+	b := modbus.NewRequestBuilder("", 0)
+	switch usage {
+	default: // one AddAll with an exactly sized copy
+		b.AddAll(append(modbus.Fields{}, fields...))
+	case 1: // field by field
+		for _, f := range fields {
+			b.Add(&modbus.BField{Field: f})
+		}
+	case 2: // AddAll from a slice with spare capacity, then Add; afterwards the caller keeps using ITS slice
+		k := len(fields) / 2
+		mine := make(modbus.Fields, k, k+8)
+		copy(mine, fields[:k])
+		b.AddAll(mine)
+		for _, f := range fields[k:] {
+			b.Add(&modbus.BField{Field: f})
+		}
+		// the caller's own later appends / edits must not reach into the builder
+		mine = append(mine, modbus.Field{Name: "foreign", ServerAddress: "other:1", UnitID: 9, Address: 7, Type: modbus.FieldTypeUint16})
+		if len(mine) > 0 {
+			mine[0].Address ^= 0x0100
+		}
+	case 3: // two builders seeded from the same slice
+		src := make(modbus.Fields, len(fields), len(fields)+8)
+		copy(src, fields)
+		b.AddAll(src)
+		other := modbus.NewRequestBuilder("", 0)
+		other.AddAll(src)
+		other.Add(&modbus.BField{Field: modbus.Field{Name: "foreign", ServerAddress: "other:1", UnitID: 9, Address: 7, Type: modbus.FieldTypeUint16}})
+	}
+	return b
+}
+
 func observe(c *Case, r *mon.Rec, t target, fields modbus.Fields) {
 	r.Eval(1)
-	b := modbus.NewRequestBuilder("", 0)
-	b.AddAll(append(modbus.Fields{}, fields...))
+	usage := 0
+	if c.Kind == "random" {
+		usage = int(uint64(c.Seed) % 4)
+	}
+	b := build(fields, usage)
 	var reqs []modbus.BuilderRequest
 	var err error
 	if p, txt := mon.Catch(func() { reqs, err = t.call(b) }); p {
